@@ -46,6 +46,21 @@ func c02Program(specs []fnSpec) *Prog {
 	if len(specs) < 2 {
 		st = append(st, Define{Names: []string{"y"}, Form: DefVarTypeIn, T: TInt, Vals: []Expr{lit(200)}})
 	}
+	// composite spellings: globals named <function>_<variable of that function>, and two functions on one call
+	// chain whose names and locals concatenate to the same string (get + item_n / get_item + n)
+	st = append(st,
+		Define{Names: []string{"item_count"}, Form: DefShort, Vals: []Expr{lit(77)}},
+		Define{Names: []string{"item_total"}, Form: DefShort, Vals: []Expr{lit(88)}},
+		FuncDef{Name: "get_item", Params: []Param{{"n", TInt}}, Rets: []Type{TInt}, Body: []Stmt{Define{Names: []string{"total"}, Form: DefShort, Vals: []Expr{Binary{Op: "*", L: Var{"n"}, R: lit(3)}}}, Return{Vals: []Expr{Var{"total"}}}}},
+		FuncDef{Name: "get", Params: []Param{{"count", TInt}}, Rets: []Type{TInt}, Body: []Stmt{
+			Define{Names: []string{"item_n"}, Form: DefShort, Vals: []Expr{Binary{Op: "+", L: Var{"count"}, R: lit(10)}}},
+			Define{Names: []string{"item_total2"}, Form: DefShort, Vals: []Expr{Call{Fn: "get_item", Args: []Expr{lit(2)}}}},
+			Return{Vals: []Expr{Binary{Op: "+", L: Var{"item_n"}, R: Var{"item_total2"}}}}}},
+		FuncDef{Name: "item", Params: []Param{{"count", TInt}}, Rets: []Type{TInt}, Body: []Stmt{
+			Define{Names: []string{"total"}, Form: DefShort, Vals: []Expr{Binary{Op: "*", L: Var{"count"}, R: lit(2)}}}, IncDec{Name: "count", Inc: true},
+			Return{Vals: []Expr{Binary{Op: "+", L: Var{"total"}, R: Var{"count"}}}}}},
+		Print{Args: []Expr{StrLit{V: "composite"}, Call{Fn: "item", Args: []Expr{lit(5)}}, Var{"item_count"}, Var{"item_total"}, Call{Fn: "get", Args: []Expr{lit(1)}}, Var{"item_count"}, Var{"item_total"}}},
+	)
 	st = append(st, Define{Names: []string{"x"}, Form: DefShort, Vals: []Expr{lit(7)}})
 	show := func(tag string, extra ...Expr) Stmt {
 		args := []Expr{StrLit{V: tag}, Var{"g"}, Var{"y"}, Var{"x"}}
